@@ -8,6 +8,7 @@ import numpy as np
 from mc.common2d import Reg, display_map, expected_display, std_pairings, with_subtotals
 from mc.compare import arr_bytes, first_diff, num_eq, to_list
 from mc.engine import Res, digest, viol
+from mc.engine import Space
 from mc.oracle import div
 
 ID = "C03"
@@ -15,20 +16,63 @@ CHUNK = 100
 RULE = ("states = (multiset of <=N respondents incl. the empty survey, insertion config) per "
         "schema, all enumerated; non-trivial = at least one defined (non-NaN) proportion AND "
         "at least one zero base in the same table, or any positive count; distinct = "
-        "distinct (schema, proportion tensors)")
-ASSUMPTIONS = ["plain subtotals only (differences: C04)", "weights {1,2}"]
+        "distinct (schema, proportion tensors); in diffpct_* spaces non-trivial = some proportion is "
+        "negative")
+ASSUMPTIONS = ["count/base, range and sum-to-one claims: plain subtotals only (what a difference shows is "
+               "C04's); the x100 claim is also checked on tables with subtotal differences (diffpct_* "
+               "spaces, which reuse C04's insertion alphabets)", "weights {1,2}"]
 TRUSTED = ["numpy"]
 
 REG = std_pairings(Reg())
 SCHEMAS = REG.schemas
 
 
+# the x100 relation on tables that carry subtotal DIFFERENCES (negative and NaN proportions)
+DIFFPCT = ["small_rows_cat_x_cat", "small_cols_cat_x_cat", "small_wave_rows", "small_wave_cols",
+           "both_cat3_x_cat3", "pair_strand", "wave_strand", "arith_rows_cat_x_mr", "arith_cols_mr_x_cat"]
+
+
+def _c04():
+    import props.c04 as c04
+    return c04
+
+
 def spaces(tier):
-    return REG.spaces(tier)
+    out = REG.spaces(tier)
+    for sp in _c04().spaces(tier):
+        if sp.name in DIFFPCT:
+            out.append(Space("diffpct_" + sp.name, sp.levels, sp.fanout, sp.bounds))
+    return out
 
 
 def detail(space, state):
+    if space.startswith("diffpct_"):
+        return _c04().detail(space[8:], state)
     return REG.detail(space, state)
+
+
+def _check_diffpct(space, state):
+    from cr.cube.cube import Cube
+    from mc.common2d import transforms_for
+    from mc.model import tabulate
+    c04 = _c04()
+    sch, data, cfg = c04._unpack(space[8:], state)
+    part = Cube(tabulate(sch, data), transforms=transforms_for(cfg)).partitions[0]
+    V, asserted, outs, neg = [], 0, [], False
+    names = (("table_proportions", "table_percentages"),) if part.ndim == 1 else (
+        ("row_proportions", "row_percentages"), ("column_proportions", "column_percentages"),
+        ("table_proportions", "table_percentages"))
+    for pn, qn in names:
+        p = np.asarray(getattr(part, pn), dtype=float)
+        q = getattr(part, qn)
+        asserted += 1
+        d = first_diff(q, (100 * p).tolist())
+        if d is not None:
+            V.append(viol(qn + ":x100", "%s cell %s: library %r, 100 x %s is %r" % (qn, d[0], d[1], pn, d[2]),
+                          output=qn, cell=list(d[0])))
+        neg = neg or bool(np.any(p[~np.isnan(p)] < 0))
+        outs.append(arr_bytes(p))
+    return Res(V, neg, digest(space, state[1], *outs), asserted)
 
 
 def _assembled_twice(display, part, o):
@@ -47,6 +91,8 @@ def _assembled_twice(display, part, o):
 
 
 def check(space, state):
+    if space.startswith("diffpct_"):
+        return _check_diffpct(space, state)
     sch, data, cfg, cube, oracles = REG.build(space, state)
     V = []
     asserted = 0
